@@ -315,7 +315,10 @@ def run(ctx):
     nsink = 0
     for b, c, tainted in sinks:
         nsink += 1
-        base = 'parse@%s' % b.root
+        # a parse site inside a private helper is keyed by the entry point it works for (extracting the parse into a helper of
+        # add_node does not create a new site)
+        owners = sorted(prog.owner_roots(b.root))
+        base = 'parse@%s' % (owners[0] if len(owners) == 1 else b.root)
         seen[base] = seen.get(base, 0) + 1
         key = '%s#%d' % (base, seen[base])
         if tainted:
